@@ -52,6 +52,16 @@ def encode_fixture(name, container, variant):
 
 
 def gen_case(rng):
+    if rng.random() < 0.15:
+        # no temp files at all: the interrupt must still end the run promptly and without deadlock while
+        # workers are blocked on full channels and the coordinator holds / waits for the channel-map lock
+        files, descr = [], []
+        for k in range(rng.randint(1, 4)):
+            p = world.TextLogParams(n_msgs=rng.choice((3, 20, 60)), src_letter=bytes([65 + k]), cont_p=0.1)
+            content, msgs, _ = world.gen_text_log(rng, p)
+            files.append(core.FileSpec("t%d.log" % k, content, 1600000000))
+            descr.append({"path": "t%d.log" % k, "fixture": "text", "msgs": len(msgs)})
+        return core.Scenario(files, ["--color", "never"] + [f.path for f in files], None, "UTC"), descr
     n = rng.choice((1, 1, 2, 2, 3))
     files = []
     descr = []
